@@ -236,6 +236,16 @@ def check_batch(o):
             one = np.stack([np.asarray(m.instance(w.copy())).ravel() for w in Wm])
             if many.shape != one.shape or not L.close(many, one, 1e-9):
                 bad.append((tag + ": instance_vectors(W) is not instance(w) row by row", {}, None))
+        # the batched forms are the single-vector forms row by row (several vectors, several components: a non-square block)
+        if tag.startswith("PCAVectorModel") and k >= 1:
+            Y = rng.randint(-5, 6, size=(k + 2, X.shape[1])).astype(float)
+            for bname, sname in (("project_vectors", "project"), ("reconstruct_vectors", "reconstruct"), ("project_out_vectors", "project_out")):
+                if not hasattr(m, bname):
+                    continue
+                many = np.asarray(getattr(m, bname)(Y.copy()))
+                one = np.stack([np.asarray(getattr(m, sname)(y.copy())).ravel() for y in Y])
+                if many.shape != one.shape or not L.close(many, one, 1e-9):
+                    bad.append((tag + ": %s(Y) is not %s(y) row by row" % (bname, sname), {"shape": list(many.shape)}, None))
         # active-component changes and trimming
         orig = m.original_variance()
         for j in range(1, k + 1):
